@@ -334,3 +334,161 @@ pub fn render_op(op: &Op, stream: Option<&[u8]>) -> String {
         },
     }
 }
+
+// ---------------------------------------------------------------------------------------------
+// Parsing op lines back (replay files)
+
+pub fn dec_tok(s: &str) -> Option<String> {
+    if s == "~" {
+        return Some(String::new());
+    }
+    let b = s.as_bytes();
+    let mut out = Vec::new();
+    let mut i = 0;
+    while i < b.len() {
+        if b[i] == b'%' {
+            let h = std::str::from_utf8(b.get(i + 1..i + 3)?).ok()?;
+            out.push(u8::from_str_radix(h, 16).ok()?);
+            i += 3;
+        } else {
+            out.push(b[i]);
+            i += 1;
+        }
+    }
+    String::from_utf8(out).ok()
+}
+
+pub fn dec_opt(s: &str) -> Option<Option<String>> {
+    if s == "!" {
+        Some(None)
+    } else {
+        dec_tok(s).map(Some)
+    }
+}
+
+pub fn dec_hex(s: &str) -> Option<Vec<u8>> {
+    if s == "~" {
+        Some(vec![])
+    } else {
+        hex::decode(s).ok()
+    }
+}
+
+fn split_list<'a>(sep: char, s: &'a str) -> Vec<&'a str> {
+    if s == "~" {
+        vec![]
+    } else {
+        s.split(sep).collect()
+    }
+}
+
+fn field<'a>(parts: &[&'a str], key: &str) -> Option<&'a str> {
+    for p in parts {
+        if let Some((k, v)) = p.split_once('=') {
+            if k == key {
+                return Some(v);
+            }
+        }
+    }
+    None
+}
+
+pub fn parse_resp(s: &str) -> Option<Option<Resp>> {
+    if s == "E" {
+        return Some(None);
+    }
+    let f: Vec<&str> = s.split(';').collect();
+    if f.len() != 3 {
+        return None;
+    }
+    let available = match f[0] {
+        "1" => true,
+        "0" => false,
+        _ => return None,
+    };
+    let patch = if f[1] == "!" {
+        None
+    } else {
+        let p: Vec<&str> = f[1].split(':').collect();
+        if p.len() != 4 {
+            return None;
+        }
+        Some(Offer { number: p[0].parse().ok()?, hash: dec_tok(p[1])?, url: dec_tok(p[2])?, sig: dec_opt(p[3])? })
+    };
+    let rolled_back = if f[2] == "!" {
+        None
+    } else {
+        let mut l = Vec::new();
+        for x in split_list(',', f[2]) {
+            l.push(x.parse().ok()?);
+        }
+        Some(l)
+    };
+    Some(Some(Resp { available, patch, rolled_back }))
+}
+
+/// Inverse of `render_op`. For updates the `d=` field is the decompressed stream; `recompress`
+/// turns it back into a body the library can download.
+pub fn parse_op(line: &str, recompress: &dyn Fn(&[u8]) -> Vec<u8>) -> Option<Op> {
+    let parts: Vec<&str> = line.split_whitespace().collect();
+    match parts.as_slice() {
+        ["init", rest @ ..] => {
+            let version = dec_tok(field(rest, "ver")?)?;
+            let st = field(rest, "st")?;
+            let dirs: usize = st.strip_prefix("st")?.parse().ok()?;
+            let mut libs = Vec::new();
+            for l in split_list(',', field(rest, "libs")?) {
+                libs.push(dec_tok(l)?);
+            }
+            let y = field(rest, "yaml")?;
+            let yaml = if y == "bad" {
+                Err(0)
+            } else {
+                let f: Vec<&str> = y.split(';').collect();
+                if f.len() != 5 {
+                    return None;
+                }
+                Ok(Yaml {
+                    app_id: dec_tok(f[0])?,
+                    channel: dec_opt(f[1])?,
+                    base_url: dec_opt(f[2])?,
+                    auto_update: match f[3] {
+                        "!" => None,
+                        "1" => Some(true),
+                        "0" => Some(false),
+                        _ => return None,
+                    },
+                    key: dec_opt(f[4])?,
+                })
+            };
+            Some(Op::Init { version, dirs, libs, yaml })
+        }
+        ["restart"] => Some(Op::Restart),
+        ["start"] => Some(Op::Start),
+        ["success"] => Some(Op::Success),
+        ["failure"] => Some(Op::Failure),
+        ["nextn"] => Some(Op::NextN),
+        ["nextp"] => Some(Op::NextP),
+        ["curn"] => Some(Op::CurN),
+        ["auto"] => Some(Op::Auto),
+        ["check", rest @ ..] => Some(Op::Check { chan: dec_opt(field(rest, "ch")?)?, resp: parse_resp(field(rest, "r")?)? }),
+        ["update", rest @ ..] => {
+            let d = field(rest, "d")?;
+            let dl = if d == "E" { None } else { Some(recompress(&dec_hex(d)?)) };
+            Some(Op::Update { chan: dec_opt(field(rest, "ch")?)?, resp: parse_resp(field(rest, "r")?)?, dl })
+        }
+        ["dmg", "art-del", n] => Some(Op::Dmg(Damage::ArtDel(n.parse().ok()?))),
+        ["dmg", "art-set", n, h] => Some(Op::Dmg(Damage::ArtSet(n.parse().ok()?, dec_hex(h)?))),
+        ["dmg", "dir-del", n] => Some(Op::Dmg(Damage::DirDel(n.parse().ok()?))),
+        ["dmg", "pdir-del"] => Some(Op::Dmg(Damage::PdirDel)),
+        ["dmg", "junk", s] => Some(Op::Dmg(Damage::Junk(dec_tok(s)?))),
+        ["dmg", "pj-del"] => Some(Op::Dmg(Damage::PjDel)),
+        ["dmg", "pj-garbage"] => Some(Op::Dmg(Damage::PjGarbage(1))),
+        ["dmg", "pj-stale", k] => Some(Op::Dmg(Damage::PjStale(k.parse().ok()?))),
+        ["dmg", "sj-del"] => Some(Op::Dmg(Damage::SjDel)),
+        ["dmg", "sj-garbage"] => Some(Op::Dmg(Damage::SjGarbage(1))),
+        ["dmg", "sj-stale", k] => Some(Op::Dmg(Damage::SjStale(k.parse().ok()?))),
+        ["dmg", "nop"] => Some(Op::Dmg(Damage::Nop)),
+        _ => None,
+    }
+}
